@@ -1,5 +1,5 @@
 """C12 secrets: theorems in coq/Props/PropC12.v about Pure/Token.v, Code.v,
-ApiKey.v, Basic.v; correspondence against the REAL token / code / basic
+ApiKey.v, Basic.v (bcrypt = three-valued oracle over arbitrary stored bytes); correspondence against the REAL token / code / basic
 authenticators (harness/ext/c12*.go) and checkAPIKey (package main, overlay
 driver), in two phases: the implementation runs first and reports, next to
 its answer, the clock readings and the real HMAC values of exactly the data
@@ -247,9 +247,125 @@ def gen_basic(ctx, quick):
     return cs
 
 
+# ---- login / password above store anomalies (stored secret = ANY bytes) ----
+# real bcrypt hashes (golang.org/x/crypto/bcrypt GenerateFromPassword, cost 4 / 5: a comparison takes ~1 ms) of known passwords
+BC_KNOWN_C12E = [
+    (b"secret", b"$2a$04$QcEaGpbOKH.sIPNmo.7GYeO0NuMU3FqY8b3UMRN8lSSQayiPdRhR6"),
+    (b"Tr0ub4dor&3", b"$2a$04$Dt/8fK1ClwiDK6wQlN3XK.Fl/9ZRNvF.JU4QytxO21tBTQRis/Rzm"),
+    (b"x", b"$2a$04$bmxWucYIp.EkF3Afj9Pr5.q9u0vhqmVt1tXJpcVXezI2VSlCMH8Qy"),
+    (b"pass:word", b"$2a$04$0BueX0saPkGKs2M4sP71duNLTEcdqGeVEa1Y9f0PA1x7j5SUsdzEO"),
+    (b"secret", b"$2a$05$g/lpagP2cuh7e04siSWafO9aDSQjrbVMNxeY66miZK.9OH12cjsje"),
+]
+BC_FOREIGN_C12E = [
+    b"$argon2id$v=19$m=65536,t=3,p=4$c29tZXNhbHRzb21lc2FsdA$RdescudvJCsgt3ub+b+dWRWJTmaaJObG",
+    b"$6$rounds=5000$usesomesillystringforsalt$D4IrlXatmP7rx3P3InaxBeoomnAihCKRVQP22JkLQ4hBLoQOIKWRr0",
+    b"$1$O3JMY.Tw$AdLnLjQ/5jXF9.MTp3gHv/" + b"." * 30,
+    b"$5$MnfsQ4iN$ZMTppKN16y/tIsUYs/obHlhdP.Os80yXhTurpBMUbA5",
+    b"$pbkdf2-sha256$29000$N2YMIWQsBWBMae09x1jrPQ$1t8iyB2A.WF/Z5JZv.lfCIhXXN33N23OSgQYThBYRfk",
+    b"{SSHA}DkMTwBl+a/3DQTxCYEApdUtNXGgdUac3" + b"=" * 24,
+    b"5e884898da28047151d0e56f8dc6292773603d0d6aabbdd62a11ef721d1542d8",      # sha256 hex
+    b"5baa61e4c9b93f3f0682250b6cf8331b7ee68fd8",                              # sha1 hex (short)
+    b"$2a$04$",
+    b"$" * 60, bytes(60), b"\xff" * 60, b" " * 64,
+]
+
+
+def bc_header_c12e(s):
+    """python restatement of coq/Pure/Basic.v bc_header (= bcrypt newFromHash): error class or ('ok', cost)"""
+    if len(s) < 59:
+        return "short"
+    if s[0] != 0x24:
+        return "prefix"
+    if s[1] > 0x32:
+        return "version"
+    cs = s[3:5] if s[2] == 0x24 else s[4:6]
+    a, b = cs[0], cs[1]
+    dig = lambda c: 0x30 <= c <= 0x39
+    if not dig(b):
+        return "costsyntax"
+    if dig(a):
+        cost = 10 * (a - 0x30) + (b - 0x30)
+    elif a == 0x2b:
+        cost = b - 0x30
+    elif a == 0x2d:
+        cost = -(b - 0x30)
+    else:
+        return "costsyntax"
+    if cost < 4 or cost > 31:
+        return "costrange"
+    return ("ok", cost)
+
+
+def bc_affordable_c12e(s):
+    """never plant bytes that bcrypt would parse as an expensive cost (2^cost rounds: cost 31 = hours)"""
+    h = bc_header_c12e(s)
+    return isinstance(h, str) or h[1] <= 9
+
+
+def bc_anomalies_c12e(rng, pw, h, quick):
+    """(label, stored bytes or None for nil) for one real hash h of the known password pw"""
+    out = [("valid", h), ("empty", b""), ("nil", None)]
+    lens = list(range(1, 60)) if not quick else sorted(set([1, 2, 3, 4, 5, 6, 7, 8, 28, 29, 30, 58, 59] + rng.sample(range(1, 60), 14)))
+    out += [("trunc%d" % n, h[:n]) for n in lens]
+    out += [("head-cut%d" % n, h[n:] + b"." * n) for n in (1, 3, 7)]
+    for v in (b"$2b$", b"$2x$", b"$2y$", b"$2$", b"$3a$", b"$3$", b"$9z$", b"$1a$", b"$0a$", b"$\xffa$", b"x2a$", b"\x002a$", b"#2a$"):
+        out.append(("version-" + v.hex(), v + h[4:]))
+    for c in (b"00", b"03", b"32", b"99", b"-4", b"-9", b" 4", b"4$", b"0x", b"x4", b"4 ", b"\x004", b"+4", b"+3", b"05", b"06"):
+        out.append(("cost-" + c.hex(), h[:4] + c + h[6:]))
+    out += [("trail-" + t.hex(), h + t) for t in (b"x", b"xyz", b"\n", b"\x00", h)]
+    out += [("salt-bad", h[:10] + b"!" + h[11:]), ("salt-pad", h[:7] + b"=" * 22 + h[29:]), ("hash-flip", h[:-1] + (b"a" if h[-1:] != b"a" else b"b")),
+            ("dollar-moved", h[:6] + b"x" + h[7:]), ("plaintext", pw), ("plaintext-long", (pw * 80)[:72]), ("plaintext-colon", b"alice:" + pw)]
+    out += [("foreign%d" % i, f) for i, f in enumerate(BC_FOREIGN_C12E)]
+    out += [("random%d" % i, bytes(rng.getrandbits(8) for _ in range(rng.choice([20, 59, 60, 61, 100])))) for i in range(3)]
+    out += [("random-dollar%d" % i, b"$2a$" + rng.choice([b"04", b"00", b"zz"]) + b"$" + bytes(rng.choice(B64 + b"./") for _ in range(53))) for i in range(3)]
+    return [(l, b) for l, b in out if b is None or bc_affordable_c12e(b)]
+
+
+def gen_basic_anomaly_c12e(ctx, quick):
+    """One row per case, whose secret column is overwritten (RAW) by every anomaly class in turn; after each
+    write the login is tried with right / wrong / empty / 72+ byte passwords and with the stored bytes themselves."""
+    rng = ctx.rng
+    cs = []
+    def sec(login, pw):
+        return hx(login.encode("utf8") + b":" + pw)
+    spell = [("alice", ["alice", "Alice", "ALICE"]), ("bob", ["bob", "BOB"]), ("\u00e4lice", ["\u00e4lice", "\u00c4LICE"])]
+    bases = list(BC_KNOWN_C12E) if not quick else [BC_KNOWN_C12E[0], rng.choice(BC_KNOWN_C12E[1:])]
+    for rep in range(1 if quick else 6):
+        for pw, h in bases:
+            login, spellings = rng.choice(spell)
+            uid = rng.choice([1, 7, 1 << 40])
+            lvl = rng.choice([10, 20, 30])
+            other = rng.choice([k for k in BC_KNOWN_C12E if k[0] != pw])
+            an = bc_anomalies_c12e(rng, pw, h, quick) + [("other-valid", other[1])]
+            rng.shuffle(an)
+            an.append(("valid-again", h))
+            for chunk in range(0, len(an), 30):
+                first_pw = rng.choice([b"secret", b"longer password 123"])
+                ops = ["ADD:%d:%d:%s:%d" % (uid, lvl, sec(login, first_pw), rng.choice([0, 0, 3600 * SEC])),
+                       "AUTH:" + sec(rng.choice(spellings), first_pw), "AUTH:" + sec(rng.choice(spellings), b"")]
+                for label, b in an[chunk:chunk + 30]:
+                    ops.append("RAW:%d:%s" % (uid, "nil" if b is None else hx(b)))
+                    tries = [pw, b"", rng.choice([b"wrong", pw[:-1], pw + b"x", other[0]]),
+                             rng.choice([b"z" * 72, b"z" * 73, pw + b"z" * 70, b"\x00" * 80, bytes(range(1, 201))])]
+                    if b and b != pw:
+                        tries.append(b)                                 # the stored bytes presented as the password
+                    if quick:
+                        tries = tries[:2] + rng.sample(tries[2:], min(2, len(tries) - 2))
+                    for t in tries:
+                        ops.append("AUTH:" + sec(rng.choice(spellings), t))
+                if rng.random() < 0.5:
+                    ops.append("RAW:%d:%s" % (uid + 1, hx(h)))          # no such row
+                    ops.append("UPD:%d:%s:0" % (uid, sec("", b"fresh password")))
+                    ops.append("AUTH:" + sec(rng.choice(spellings), b"fresh password"))
+                    ops.append("AUTH:" + sec(rng.choice(spellings), pw))
+                cs.append("B 0 0 " + " ".join(ops))
+    return cs
+
+
 def gen_cases(ctx):
     quick = ctx.tier == "quick"
     return (gen_token(ctx, quick) + gen_apikey(ctx, quick) + gen_code(ctx, quick) + gen_basic(ctx, quick)
+            + gen_basic_anomaly_c12e(ctx, quick)
             + ["LOWER 0 1114112"])
 
 
@@ -429,6 +545,31 @@ def mon_code(c, r, a, fails):
                     touched[k] = clock      # a counted wrong guess rewrites the row (REPLACE sets createdat)
 
 
+def basic_match_fail_c12e(c, i, p, rec, raw, d, known, fails):
+    """AUTH:ok at op i for the record rec = (uid, password, expiry): success needs bcrypt's "match" on exactly the
+    bytes stored.  Returns True when a law failure was recorded."""
+    n = len(fails)
+    ref = d.get("ref%d" % i, ["?"])[0]       # the driver's own bcrypt.CompareHashAndPassword on (stored bytes, password)
+    if rec[0] in raw:
+        # the row's secret was overwritten by RAW: whatever the bytes
+        sb = raw[rec[0]] or b""
+        cls = bc_header_c12e(sb)
+        if isinstance(cls, str):
+            fails.append(("basic-never-authenticates-without-match", c,
+                          "op %d: password %s authenticated against stored bytes that bcrypt cannot parse (%s: %s)" % (i, hx(p[1]), cls, hx(sb)[:130])))
+        elif ref != "m":
+            fails.append(("basic-never-authenticates-without-match", c,
+                          "op %d: password %s authenticated although bcrypt.CompareHashAndPassword on the stored bytes %s answers %s" % (i, hx(p[1]), hx(sb)[:130], ref)))
+        elif sb in known and known[sb] != p[1]:
+            fails.append(("basic-wrong-password-never", c, "op %d: wrong password authenticated" % i))
+    elif rec[1] != p[1]:
+        fails.append(("basic-wrong-password-never", c, "op %d: wrong password authenticated" % i))
+    elif ref != "m":
+        fails.append(("basic-never-authenticates-without-match", c,
+                      "op %d: authenticated although bcrypt.CompareHashAndPassword on the stored hash answers %s" % (i, ref)))
+    return len(fails) > n
+
+
 def mon_basic(c, r, a, fails):
     w = c.split()
     ops, outs = w[3:], r.split()[1:-1]
@@ -443,6 +584,15 @@ def mon_basic(c, r, a, fails):
         lo = low.get(sech)
         return ("" if lo == "-" else lo), s.split(b":", 1)[1]
     recs = {}    # lower login -> (uid, password, logical expiry or None)
+    raw = {}     # uid -> bytes written over the secret column by RAW (None = nil); cleared by ADD / UPD
+    d = auxd(a)
+    known = dict((h, pw) for pw, h in BC_KNOWN_C12E)
+    for e in d.get("bc", []):
+        # premise of c12_basic_malformed_hash_never_authenticates, on the real library
+        hh, _, o = e.split(":")
+        cls = bc_header_c12e(unhx(hh))
+        if isinstance(cls, str) and o != "e-" + cls:
+            fails.append(("hypothesis-bcrypt-header", c, "bcrypt answers %s on bytes its header check rejects as %s: %s" % (o, cls, hh)))
     clock = 0
     def until(lt):
         return clock + int(lt) // SEC if int(lt) > 0 else None
@@ -455,7 +605,11 @@ def mon_basic(c, r, a, fails):
             if lo in recs:
                 fails.append(("login-unique", c, "op %d: login registered twice (up to letter case)" % i))
             recs[lo] = (f[1], pw, until(f[4]))
+            raw.pop(f[1], None)
+        elif f[0] == "RAW" and o.startswith("RAW:ok"):
+            raw[f[1]] = None if f[2] == "nil" else unhx(f[2])
         elif f[0] == "UPD" and o == "UPD:ok":
+            raw.pop(f[1], None)
             lo, pw = parse(f[2])
             old = [k for k, v in recs.items() if v[0] == f[1]]
             name = lo if lo else (old[0] if old else None)
@@ -468,8 +622,8 @@ def mon_basic(c, r, a, fails):
             p = parse(f[1])
             if p is None or p[0] not in recs:
                 fails.append(("basic-unknown-login-never", c, "op %d: unknown login authenticated" % i))
-            elif recs[p[0]][1] != p[1]:
-                fails.append(("basic-wrong-password-never", c, "op %d: wrong password authenticated" % i))
+            elif basic_match_fail_c12e(c, i, p, recs[p[0]], raw, d, known, fails):
+                pass
             elif o.split(":")[2] != recs[p[0]][0]:
                 fails.append(("basic-yields-owner", c, "op %d: authenticated as another user" % i))
             elif recs[p[0]][2] is not None and clock > recs[p[0]][2]:
@@ -612,7 +766,10 @@ def run(ctx):
                 "with CR/LF, '=', '+', '/'; reset codes: seeded random sequences of GenSecret / right / wrong / literal guesses / raw "
                 "secrets / time steps over 1..3 credentials (incl. the '%' vs '/' key collision) compared op by op and on the final "
                 "cache; basic: sequences of AddRecord / Authenticate / UpdateRecord / time steps over logins differing in case, "
-                "compared op by op and on the final table; strings.ToLower idempotence on all 0x110000 code points. "
+                "compared op by op and on the final table; basic above store anomalies: one row whose secret column is overwritten (RAW) in turn "
+                "by real cost-4/5 bcrypt hashes of known passwords and every anomaly class (empty, nil, truncations, version / prefix / cost bytes, "
+                "trailing bytes, bad salt, foreign schemes, plaintext, random bytes), each followed by logins with right / empty / wrong / 72+ byte "
+                "passwords and the stored bytes themselves; strings.ToLower idempotence on all 0x110000 code points. "
                 "non-trivial = accepted by the implementation",
         "samples": [{"case": c[:300], "impl": table[c][:300]} for c in (cases[:2] + ctx.rng.sample(cases, min(6, len(cases))))] if cases else [],
         "traces_validated_against_impl": len(cases), "correspondence_mismatches": len(open_mism),
@@ -621,7 +778,7 @@ def run(ctx):
         "trusted_base": [
             "HMAC-SHA256 / HMAC-MD5 unforgeability: the theorems reduce every acceptance of a non-issued token or key to a valid (data, MAC) pair the signer never produced; that such a pair cannot be found without the key is assumed, not proved",
             "the MAC is an arbitrary function in Coq; on each run the model is evaluated with the real HMAC values the drivers computed with crypto/hmac for the data the authenticator saw",
-            "bcrypt: verify is an arbitrary function in Coq; the run instantiates it as equality of passwords (CompareHashAndPassword(GenerateFromPassword(p), q) = nil iff p = q for passwords below 72 bytes)",
+            "bcrypt: CompareHashAndPassword is an arbitrary three-valued function cmp (match / mismatch / error class) in Coq; on each run the model is evaluated with the outcomes the driver computed with golang.org/x/crypto/bcrypt for exactly the (stored bytes, password) pairs Authenticate may have to compare, and with the bytes the store holds after each AddRecord / UpdateRecord; that match means right password (bcrypt correctness, passwords below 72 bytes) is assumed; only the header check newFromHash is modelled (bc_header), compared with bcrypt.Cost on every planted secret",
             "strings.ToLower and the login/password policies are arbitrary functions in Coq (idempotence of lower-casing is a premise, checked here on every code point); the run uses the values computed by Go",
             "harness/ext/c12*.go: in-memory fakes of store.PCache and store.Users written from the MySQL adapter's contract (INSERT vs REPLACE, createdat, unique indices); the SQL adapters themselves are not executed",
             "wall clock: read by the driver around each call and passed to the model; expiry decisions are kept >= 1 s away from the boundary by construction of the cases",
